@@ -290,16 +290,31 @@ func runC09(ctx *Ctx) error {
 		}
 		push("msgread "+tx(b1), obs, cs)
 		// property oracle on the implementation
-		site := "roundtrip"
-		if s.HasOuter {
-			site = "subject-outer-whitespace"
-		}
 		if !strings.HasPrefix(obs, "ok ") {
 			res.Fail(Failure{Kind: "oracle", Site: "roundtrip-parse-error", Case: cs, Impl: trunc(obs)})
 			continue
 		}
 		if !reflect.DeepEqual(m.Header, m2.Header) {
-			res.Fail(Failure{Kind: "oracle", Site: site, Case: cs, Detail: fmt.Sprintf("headers differ: %v vs %v", m.Header, m2.Header)})
+			// the known finding covers exactly: the Subject field comes back without its outer
+			// white space. Any other difference between the header blocks is reported as such.
+			hsite := "roundtrip"
+			if s.HasOuter {
+				h1, h2 := fbb.Header{}, fbb.Header{}
+				for k, v := range m.Header {
+					if k != "Subject" {
+						h1[k] = v
+					}
+				}
+				for k, v := range m2.Header {
+					if k != "Subject" {
+						h2[k] = v
+					}
+				}
+				if reflect.DeepEqual(h1, h2) && m2.Subject() == strings.TrimSpace(s.Subject) {
+					hsite = "subject-outer-whitespace"
+				}
+			}
+			res.Fail(Failure{Kind: "oracle", Site: hsite, Case: cs, Detail: fmt.Sprintf("headers differ: %v vs %v", m.Header, m2.Header)})
 		}
 		if !bytes.Equal(fbb.VerifRawBody(m), fbb.VerifRawBody(m2)) || len(m.Files()) != len(m2.Files()) {
 			res.Fail(Failure{Kind: "oracle", Site: "roundtrip", Case: cs, Detail: "body or attachment count differs"})
@@ -314,7 +329,11 @@ func runC09(ctx *Ctx) error {
 			res.Fail(Failure{Kind: "oracle", Site: "not-canonical", Case: cs, Detail: fmt.Sprint(err)})
 		}
 		if m2.Subject() != s.Subject {
-			res.Fail(Failure{Kind: "oracle", Site: site, Case: cs, Detail: fmt.Sprintf("Subject() = %q, set %q", m2.Subject(), s.Subject)})
+			ssite := "roundtrip"
+			if s.HasOuter && m2.Subject() == strings.TrimSpace(s.Subject) {
+				ssite = "subject-outer-whitespace"
+			}
+			res.Fail(Failure{Kind: "oracle", Site: ssite, Case: cs, Detail: fmt.Sprintf("Subject() = %q, set %q", m2.Subject(), s.Subject)})
 		}
 		if !m2.Date().Equal(s.Date) {
 			res.Fail(Failure{Kind: "oracle", Site: "accessor-date", Case: cs, Detail: fmt.Sprint(m2.Date(), s.Date)})
